@@ -371,7 +371,6 @@ pub fn check_c15_tap(dgrams: &[Dgram], out: &mut Outcome) {
             .or_default()
             .push(d);
     }
-    let mut firsts: BTreeMap<(usize, u32, u16, Option<usize>), Vec<(u64, u64, u32)>> = BTreeMap::new();
     for (k, g) in &groups {
         if g.len() > 1 {
             out.count("c15_retransmission_groups", 1);
@@ -384,8 +383,15 @@ pub fn check_c15_tap(dgrams: &[Dgram], out: &mut Outcome) {
                         ),
                         _ => String::new(),
                     };
+                    let only_ack = matches!((&g[0].proto, &d.proto), (Some(a), Some(b))
+                        if a.ack != b.ack && a.opcode == b.opcode && a.exch_id == b.exch_id && a.proto_id == b.proto_id
+                            && a.payload == b.payload && (a.exch_flags | 2) == (b.exch_flags | 2));
                     out.violate(
-                        "C15-nonce-reuse",
+                        if only_ack {
+                            "C15-nonce-reuse-ack-changed-on-retransmission"
+                        } else {
+                            "C15-nonce-reuse"
+                        },
                         format!(
                             "node {} sid {} ctr {:#x}: two different datagrams under the same key/counter/source (t={} and t={}) {}",
                             k.0, k.2, k.3, g[0].time, d.time, hdr
@@ -395,23 +401,49 @@ pub fn check_c15_tap(dgrams: &[Dgram], out: &mut Outcome) {
                 }
             }
         }
-        firsts
-            .entry((k.0, k.1, k.2, k.5))
-            .or_default()
-            .push((g[0].time, g[0].id, k.3));
     }
-    for (k, mut v) in firsts {
-        v.sort();
-        for w in v.windows(2) {
-            if w[1].2 <= w[0].2 {
-                out.violate(
-                    "C15-counter-not-increasing",
-                    format!(
-                        "node {} sid {}: new message with counter {:#x} after {:#x}",
-                        k.0, k.2, w[1].2, w[0].2
-                    ),
-                );
+}
+
+/// C15 (allocation oracle): the counters a session hands out for new messages strictly increase,
+/// and every secured datagram a node emits carries a counter its session handed out
+pub fn check_c15_alloc(run: &MrpRun, out: &mut Outcome) {
+    let mut last: BTreeMap<(usize, u32, u32), u32> = BTreeMap::new();
+    let mut handed: BTreeSet<(usize, u32, u16, u32)> = BTreeSet::new();
+    for e in &run.events {
+        if let Event::TxCtr {
+            session_id,
+            local_sess_id,
+            ctr,
+        } = &e.ev
+        {
+            out.count("c15_counters_handed_out", 1);
+            let key = (e.node, e.incarnation, *session_id);
+            if let Some(prev) = last.get(&key) {
+                if ctr <= prev {
+                    out.violate(
+                        "C15-counter-not-increasing",
+                        format!("node {} session {}: counter {:#x} handed out after {:#x}", e.node, session_id, ctr, prev),
+                    );
+                }
             }
+            last.insert(key, *ctr);
+            handed.insert((e.node, e.incarnation, *local_sess_id, *ctr));
+        }
+    }
+    for d in &run.dgrams {
+        if d.src_inc == 0 {
+            continue;
+        }
+        let (Some(plain), Some(pl)) = (&d.plain, d.planted) else {
+            continue;
+        };
+        let p = &run.cfg.planted[pl];
+        let my_sid = if p.a == d.src { p.a_local_sid } else { p.b_local_sid };
+        if !handed.contains(&(d.src, d.src_inc, my_sid, plain.ctr)) {
+            out.violate(
+                "C15-counter-not-from-session",
+                format!("node {} emitted a datagram on session {} with counter {:#x} which that session never handed out", d.src, my_sid, plain.ctr),
+            );
         }
     }
 }
